@@ -41,19 +41,19 @@ type Edge struct {
 
 // StepInfo is what oracles see for each observed step.
 type StepInfo struct {
-	Seq    int
-	Kind   string // begin | tx | end | init
-	Height int64
-	Op     *Op
-	Built  *Built
-	Res    *abci.ResponseDeliverTx
-	OK     bool
-	Events []abci.Event
-	Edges  []Edge
-	Minted map[string]sdk.Int // minter address -> amount
-	Burned map[string]sdk.Int
-	Prev   *Snap
-	Cur    *Snap
+	Seq     int
+	Kind    string // begin | tx | end | init
+	Height  int64
+	Op      *Op
+	Built   *Built
+	Res     *abci.ResponseDeliverTx
+	OK      bool
+	Events  []abci.Event
+	Edges   []Edge
+	Minted  map[string]sdk.Int // minter address -> amount
+	Burned  map[string]sdk.Int
+	Prev    *Snap
+	Cur     *Snap
 	TxBytes []byte
 }
 
@@ -94,37 +94,37 @@ func newStats() *Stats {
 
 // Env is one run of the observer.
 type Env struct {
-	W     *World
-	R     *Replica
-	Seq   *Sequencer
-	Cur   *Snap
-	Data  []*DataInfo
-	Blk   *Block
-	Blocks []*Block // committed block stream (for replicas)
-	Resps  []*BlockResp
-	Oracles []Oracle
-	Viol   []Violation
-	Stats  *Stats
-	Known  *KnownFindings
-	KnownHits map[string]int
-	seqNo  int
-	stepIx int
-	digest hash.Hash
-	seqCache map[string]uint64 // per-block next sequence numbers
-	Dead   bool // chain halted (panic escaped a consensus call)
-	Genesis []byte
-	lastOp map[string]string // object -> last op kind (interleaving measure)
+	W               *World
+	R               *Replica
+	Seq             *Sequencer
+	Cur             *Snap
+	Data            []*DataInfo
+	Blk             *Block
+	Blocks          []*Block // committed block stream (for replicas)
+	Resps           []*BlockResp
+	Oracles         []Oracle
+	Viol            []Violation
+	Stats           *Stats
+	Known           *KnownFindings
+	KnownHits       map[string]int
+	seqNo           int
+	stepIx          int
+	digest          hash.Hash
+	seqCache        map[string]uint64 // per-block next sequence numbers
+	Dead            bool              // chain halted (panic escaped a consensus call)
+	Genesis         []byte
+	lastOp          map[string]string // object -> last op kind (interleaving measure)
 	StopOnViolation bool
-	WantProps map[string]bool
-	KeepBlocks bool
-	extraAddrs []string
-	Log []string
-	Verbose bool
-	T0 time.Time
-	T  *Track
-	Shadow *shadow
-	OnlyReplica string
-	Thorough    bool
+	WantProps       map[string]bool
+	KeepBlocks      bool
+	extraAddrs      []string
+	Log             []string
+	Verbose         bool
+	T0              time.Time
+	T               *Track
+	Shadow          *shadow
+	OnlyReplica     string
+	Thorough        bool
 }
 
 // BlockResp records the observer's responses for cross-replica comparison.
